@@ -123,4 +123,19 @@ PROPS = {
         "quick": {"budget_s": 60, "chunk": 25},
         "thorough": {"budget_s": 600, "chunk": 25, "minimise_s": 120},
     },
+    "C11": {
+        "test": "TestC11",
+        "level": "exploration",
+        "world": "B: issuer node with two did:web issuers (SQL seam) and a verifier node, real issuer / status-list / verifier code over the simulated HTTP transport",
+        "rule": "each run: 2-4 phases of 2-4 concurrent tasks issuing credentials with status-list entries, revoking, fetching the served lists and verifying on "
+                "the other node; between phases the clock jumps (16 min cache age, 19 h re-issue margin, 25 h expiry) or the issuer becomes unreachable; one third of "
+                "the runs start a few slots before the page end, one third inject HTTP faults on list download. Non-trivial: more than two credentials and at least "
+                "one non-FIFO decision or fault; distinct = distinct decision hashes.",
+        "invariants": ["C11.unique-slot", "C11.served", "C11.effective", "C11.issuer-only"],
+        "assumptions": ["did:web issuers with StatusList2021 only in this check; did:nuts network revocations are not driven here",
+                        "SQLite only: with one connection issuance transactions serialise; interleavings are at transaction boundaries"],
+        "probes_expected": ["page-rolled-over", "http.issuer-unreachable"],
+        "quick": {"budget_s": 90, "chunk": 10},
+        "thorough": {"budget_s": 1200, "chunk": 10, "minimise_s": 180},
+    },
 }
